@@ -263,7 +263,7 @@ package intermediate
 
 //@ // distinctRec: two records are different objects with different element arrays (an incoming record is never one that is already held)
 //@ pure distinctRec(r1 entities.Record, r2 entities.Record) bool = r1.(*dataRecord) != r2.(*dataRecord) && arr(recList(r1)) != arr(recList(r2))
-//@ pure flowKinds(r entities.Record) bool = podKinds(r) && (forall j in [0, len(recList(r))):
+//@ pure flowKinds(r entities.Record) bool = podKinds(r) && keyKinds(r) && (forall j in [0, len(recList(r))):
 //@       ((ie(recList(r)[j]).Name == "egressNetworkPolicyRuleAction" || ie(recList(r)[j]).Name == "ingressNetworkPolicyRuleAction" || ie(recList(r)[j]).Name == "flowType") ==> dt(recList(r)[j]) == Unsigned8))
 
 //@ func (a *AggregationProcess) addOrUpdateRecordInMap(flowKey, record, isIPv4) (err)
@@ -374,12 +374,32 @@ package intermediate
 //@   noeffect
 //@   trusted
 
-//@ // the 5-tuple key of a record: a fresh FlowKey (the field-by-field extraction is not specified here)
+//@ // the 5-tuple key of a record: ports and protocol are the values of the record's first elements of those names, both addresses must be
+//@ // present in one IP version; the address STRINGS (net.IP.String, abstract) are not specified
+//@ pure u16v(e entities.InfoElementWithValue) int = e.(*Unsigned16InfoElement).value
+//@ pure kindU16(r entities.Record, name string) bool = forall j in [0, len(recList(r))): ie(recList(r)[j]).Name == name ==> dt(recList(r)[j]) == Unsigned16
+//@ pure kindIP(r entities.Record, name string) bool = forall j in [0, len(recList(r))): ie(recList(r)[j]).Name == name ==> (dt(recList(r)[j]) == Ipv4Address || dt(recList(r)[j]) == Ipv6Address)
+//@ pure keyKinds(r entities.Record) bool = kindU16(r, "sourceTransportPort") && kindU16(r, "destinationTransportPort") && kindU8(r, "protocolIdentifier")
+//@     && kindIP(r, "sourceIPv4Address") && kindIP(r, "destinationIPv4Address") && kindIP(r, "sourceIPv6Address") && kindIP(r, "destinationIPv6Address")
 //@ func getFlowKeyFromRecord(record) (r, isIPv4, err)
-//@   requires rec: recNN(record)
+//@   requires rec: recNN(record) && keyKinds(record)
+//@   given js, jd, jp
 //@   ensures  ok:  err == nil ==> r != nil && fresh(r)
 //@   ensures  bad: err != nil ==> r == nil
-//@   trusted
+//@   ensures  sport: err == nil && 0 <= js && js < len(recList(record)) && isFirst(record, "sourceTransportPort", js) ==> r.SourcePort == u16v(recList(record)[js])
+//@   ensures  dport: err == nil && 0 <= jd && jd < len(recList(record)) && isFirst(record, "destinationTransportPort", jd) ==> r.DestinationPort == u16v(recList(record)[jd])
+//@   ensures  proto: err == nil && 0 <= jp && jp < len(recList(record)) && isFirst(record, "protocolIdentifier", jp) ==> r.Protocol == u8v(recList(record)[jp])
+//@   ensures  need: err == nil ==> hasName(record, "sourceTransportPort") && hasName(record, "destinationTransportPort") && hasName(record, "protocolIdentifier")
+//@                  && (hasName(record, "sourceIPv4Address") || hasName(record, "sourceIPv6Address")) && (hasName(record, "destinationIPv4Address") || hasName(record, "destinationIPv6Address"))
+//@   ensures  v4:  err == nil ==> (isIPv4 <==> hasName(record, "sourceIPv4Address") && hasName(record, "destinationIPv4Address"))
+//@   loop 1 invariant cnt: 0 <= $i && $i <= 7 && len(elementList) == 7 && flowKey != nil && fresh(flowKey)
+//@   loop 1 invariant sp:  $i > 0 ==> hasName(record, "sourceTransportPort") && (0 <= js && js < len(recList(record)) && isFirst(record, "sourceTransportPort", js) ==> flowKey.SourcePort == u16v(recList(record)[js]))
+//@   loop 1 invariant dp:  $i > 1 ==> hasName(record, "destinationTransportPort") && (0 <= jd && jd < len(recList(record)) && isFirst(record, "destinationTransportPort", jd) ==> flowKey.DestinationPort == u16v(recList(record)[jd]))
+//@   loop 1 invariant pr:  $i > 2 ==> hasName(record, "protocolIdentifier") && (0 <= jp && jp < len(recList(record)) && isFirst(record, "protocolIdentifier", jp) ==> flowKey.Protocol == u8v(recList(record)[jp]))
+//@   loop 1 invariant v4s: isSrcIPv4Filled <==> ($i > 3 && hasName(record, "sourceIPv4Address"))
+//@   loop 1 invariant v4d: isDstIPv4Filled <==> ($i > 4 && hasName(record, "destinationIPv4Address"))
+//@   loop 1 invariant v6s: $i > 5 ==> hasName(record, "sourceIPv4Address") || hasName(record, "sourceIPv6Address")
+//@   loop 1 invariant v6d: $i > 6 ==> hasName(record, "destinationIPv4Address") || hasName(record, "destinationIPv6Address")
 
 //@ pure msgRecs(m *entities.Message) []entities.Record = m.set.(*entities.set).records
 //@ func (a *AggregationProcess) AggregateMsgByFlowKey(message) (err)
